@@ -1,15 +1,16 @@
 (* Executable entry points for the C15 correspondence shards.
    One case = one websocket session against a fresh `adlt remote` process:
-     (first stream id, list of items);  item = (done-events seen before the reply, frame text, oracle inputs).
+     (first stream id, list of items);  item = (events seen before the reply: FileInfo counters and
+     done-notifications in order, frame text, oracle inputs).
    Observation = T [ T [per command: T [reply] | T [L 9] (connection dead / no reply)] ; L connection_alive ]. *)
 From Coq Require Export String.
 From Coq Require Import List NArith Bool Ascii.
 From AdltV Require Import Base.Obs Base.Res Base.MachInt.
-From AdltV Require Export Remote.Dispatch.
+From AdltV Require Export Remote.Dispatch Remote.DispatchTick.
 Import ListNotations.
 Open Scope N_scope.
 
-Definition case_C15 := (N * list item)%type.
+Definition case_C15 := (N * list titem)%type.
 
 (* ---- compact constructors used by the generated shards *)
 Fixpoint sb (l : list N) : string :=
@@ -34,8 +35,8 @@ Definition oi (search_ok : bool) (nmsgs : N) : orc :=
   {| o_open := OpenErr; o_stream := StreamErr; o_search_ok := search_ok; o_nmsgs := nmsgs; o_json := JBad; o_fs_ok := false |}.
 Definition oj (j : json_shape) (fs_ok : bool) : orc :=
   {| o_open := OpenErr; o_stream := StreamErr; o_search_ok := false; o_nmsgs := 0; o_json := j; o_fs_ok := fs_ok |}.
-Definition it (pre : list event) (frame : string) (o : orc) : item :=
-  {| i_pre := pre; i_frame := frame; i_orc := o |}.
+Definition it (pre : list tevent) (frame : string) (o : orc) : titem :=
+  {| t_pre := pre; t_frame := frame; t_orc := o |}.
 (* filter classes of the harness templates: 1 = every message matches, 2 = no message matches *)
 Definition fl (k : N) : N -> bool := fun _ => k =? 1.
 Definition sk (one_pass : bool) (ws we np nn ne k : N) : stream_res := StreamOk one_pass ws we np nn ne (fl k).
@@ -85,12 +86,21 @@ Definition o_reply (r : reply) : otree :=
   | RUnknown e => T [L 2; L 0; T (map L (bytes_of e))]
   end.
 
-Fixpoint run_obs (st : state) (h : list item) : list otree * bool :=
+(* the event loop of Remote/DispatchTick.v, keeping the replies written before a panic *)
+Fixpoint run_obs (st : state) (h : list titem) : list otree * bool :=
   match h with
   | [] => ([], true)
   | i :: r =>
-      match step (apply_events st (i_pre i)) (i_frame i) (i_orc i) with
-      | Ok (st1, w) => let '(l, alive) := run_obs st1 r in (T (map o_reply w) :: l, alive)
+      match apply_tevents st (t_pre i) with
+      | Ok st0 =>
+          match step st0 (t_frame i) (t_orc i) with
+          | Ok (st1, w) =>
+              match tick st1 0 with
+              | Ok st2 => let '(l, alive) := run_obs st2 r in (T (map o_reply w) :: l, alive)
+              | _ => (T (map o_reply w) :: map (fun _ => T [L 9]) r, false)   (* replied, then the pass after it panics *)
+              end
+          | _ => (map (fun _ => T [L 9]) h, false)
+          end
       | _ => (map (fun _ => T [L 9]) h, false)
       end
   end.
